@@ -16,7 +16,8 @@ type Check struct {
 	// Scenarios lists the engine-X explorations of the check for a tier.
 	Scenarios func(tier string) []*engine.Scenario
 	// Extra runs non-engine-X legs (engine R / engine E); may be nil.
-	Extra func(tier string, env *Env) ExtraResult
+	Extra        func(tier string, shard, of int) ExtraResult
+	ExtraWorkers int
 	// Conform selects how many explorer traces are replayed through the real ABCI pipeline.
 	Conform func(tier string) int
 }
@@ -102,7 +103,21 @@ func lifeFamily(id, tier string, p map[string]bool, tweak func(kind string, o *L
 		tweak("r2", &a)
 		tweak("r1", &b)
 	}
-	return []*engine.Scenario{LifeScenario(a), LifeScenario(b)}
+	// c: start from non-initial states (completed + renewed with top-up; migration pending)
+	c := baseLife(id, tier, p)
+	c.ID = id + "-life-rooted"
+	c.Roots = []string{"R2", "R3"}
+	c.Depth = 5
+	if tier == "thorough" {
+		c.Depth = 7
+	}
+	if tweak != nil {
+		tweak("rooted", &c)
+	}
+	if tier == "thorough" {
+		a.Roots = []string{"R0", "R1"}
+	}
+	return []*engine.Scenario{LifeScenario(a), LifeScenario(b), LifeScenario(c)}
 }
 
 func init() {
@@ -136,6 +151,33 @@ func init() {
 				return append(lifeFamily(id, tier, props(id), nil), LifeScenario(capLife(id, tier, props(id))))
 			}})
 	}
+	register(&Check{ID: "C15", Level: "exploration", Workers: 16,
+		Rule: "engine E: RandomIndex for all (total<=9, count<total) x seeds {0..N} u {2^k} u big values, and RandomSP for all node populations (multisets over 11 attribute classes, both store orders) x ignore lists (size<=2) x count 1..4 x cursor {unset,0..5} x 10 seeds, each result checked for distinctness, ignore-list, eligibility and size; engine X: every shard assignment made by store/timeout/migrate in the lifecycle and fault-sequence explorations; distinct_nontrivial = distinct (index tuple) + (count/eligible/returned) outcomes + states with a completed shard",
+		Assumptions: append([]string{"populations larger than 5 nodes and attribute values outside the 11 classes are not covered"}, lifeAssumptions...),
+		Scenarios: func(tier string) []*engine.Scenario {
+			return append(lifeFamily("C15", tier, props("C15"), nil), TimeoutFamily("C15", tier, props("C15"))...)
+		},
+		Extra: func(tier string, shard, of int) ExtraResult { return SelectExtra(tier, shard, of, "C15") }})
+	register(&Check{ID: "C02", Level: "model_checking", Workers: 16,
+		Rule: "engine X with halt reporting: every EndBegin (custom end-blockers + node begin-blocker) of the lifecycle, capacity and fault-sequence explorations, with rewards off and on, must return without panic and within the CPU watchdog; every tx that panics must be a rejected tx (checked against real DeliverTx in the conformance leg); engine E: RandomIndex / RandomSP / GetNextSuperNodes under the CPU guard over the enumerated inputs; non-trivial = distinct states holding at least one completed shard",
+		Assumptions: append([]string{"bounded time is decided by a CPU watchdog (25 CPU-seconds per transition, slowest terminating transition is milliseconds), not by a termination proof"}, lifeAssumptions...),
+		Scenarios: func(tier string) []*engine.Scenario {
+			out := lifeFamily("C02", tier, props("C02"), nil)
+			out = append(out, LifeScenario(capLife("C02", tier, props("C02"))))
+			out = append(out, TimeoutFamily("C02", tier, props("C02"))...)
+			rw := baseLife("C02", tier, props("C02"))
+			rw.ID = "C02-life-rewards"
+			rw.Cfg = world.Config{BlockReward: 1_000_000, Baseline: 1, HalvingPeriod: 11, AdjustmentPeriod: 11}
+			rw.Depth = 4
+			rw.RemoveCap = true
+			rw.MaxHeight = 200
+			out = append(out, LifeScenario(rw))
+			for _, sc := range out {
+				sc.ReportHalt, sc.HaltProp = true, "C02"
+			}
+			return out
+		},
+		Extra: func(tier string, shard, of int) ExtraResult { return SelectExtra(tier, shard, of, "C02") }})
 	reg("C13", true, nil)
 	reg("C11", true, nil)
 	reg("C12", true, nil)
